@@ -19,7 +19,7 @@ BASE = {
     "mode": "none", "type_mappings": True, "default_parameter_case": "camelCase", "default_field_case": "snake_case", "visualize_deps": False,
     "no_commands": False, "second_file": False, "private_field_type": "u32", "crate_field": False,
     "cmd_rename_all": None, "param_serde_rename": None, "status_serde": True, "channel_name": "on_progress", "validator_range": None, "second_struct_field": "i32",
-    "notice_min": 3, "notice_level": "i32", "notice_nested": "u8",
+    "notice_min": 3, "notice_level": "i32", "notice_nested": "u8", "tm_targets": ("string", "string"),
 }
 
 # edit classes: name -> function(state) (toggles, so that sequences compose); "affects": None=always, "zod"=only visible in zod mode
@@ -49,6 +49,9 @@ EDITS = [
     ("channel-message-type", lambda s: s.update(channel_type="User" if s["channel_type"] == "String" else "String", channel=True)),
     ("mode", lambda s: s.update(mode="zod" if s["mode"] == "none" else "none")),
     ("type_mappings", lambda s: s.update(type_mappings=not s["type_mappings"])),
+    # changes of the mapping TABLE that keep its key set: every target changed, and targets exchanged between two names
+    ("type_mappings-retarget-every-entry", lambda s: s.update(type_mappings=True, tm_targets=tuple({"string": "number", "number": "string"}[t] for t in s["tm_targets"]))),
+    ("type_mappings-swap-targets", lambda s: s.update(type_mappings=True, tm_targets=(s["tm_targets"][1], s["tm_targets"][0]) if s["tm_targets"][0] != s["tm_targets"][1] else ("string", "number"))),
     ("default_parameter_case", lambda s: s.update(default_parameter_case="snake_case" if s["default_parameter_case"] == "camelCase" else "camelCase")),
     ("default_field_case", lambda s: s.update(default_field_case="camelCase" if s["default_field_case"] == "snake_case" else "snake_case")),
     ("visualize_deps", lambda s: s.update(visualize_deps=not s["visualize_deps"])),
@@ -86,7 +89,7 @@ def render(s):
     vattr = "#[validate(length(%s)%s)]" % (vargs, ", email" if s["validator_email"] else "")
     idattrs = ["#[validate(range(min = %d, max = %d))]" % s["validator_range"]] if s["validator_range"] else []
     fields = [("id", "i32", idattrs), ("display_name", s["field_type"], fattrs + ([vattr] if s["field_type"] == "String" else [])),
-              ("home_dir", "PathBuf"), ("status", "Status"), ("address", "Option<Address>")]
+              ("home_dir", "PathBuf"), ("created_at", "Timestamp"), ("status", "Status"), ("address", "Option<Address>")]
     if s["field_extra"]:
         fields.append(("extra_field", "Option<bool>"))
     fields.append(("secret_token", "String", ["#[serde(skip)]"] if s["field_skip"] else []))
@@ -133,7 +136,7 @@ def config_of(s, src, out):
     cfg = {"project_path": src, "output_path": out, "validation_library": s["mode"], "default_parameter_case": s["default_parameter_case"],
            "default_field_case": s["default_field_case"], "visualize_deps": s["visualize_deps"]}
     if s["type_mappings"]:
-        cfg["type_mappings"] = {"PathBuf": "string"}
+        cfg["type_mappings"] = {"PathBuf": s["tm_targets"][0], "Timestamp": s["tm_targets"][1]}
     return cfg
 
 
